@@ -34,6 +34,17 @@ func multiDocs(r *Rng) [][]byte {
 	out = append(out, []byte("JSIGHT 0.3\nTYPE @t\n{\n  \"a\": 1, // {enum: @Xx}\n  \"b\": 2, // {enum: @xx}\n  \"c\": 3 // {enum: @XX}\n}\n"))
 	out = append(out, []byte("JSIGHT 0.3\nTYPE @t\n{\"a\": @Mm, \"b\": @mm, \"c\": @MM, \"d\": @mM}\nGET /x\n  200 @mM\n"))
 	out = append(out, []byte("JSIGHT 0.3\nGET /a/{X}\n  200 any\nGET /A/{x}\n  200 any\nPOST /a/{x}\n  200 any\nPOST /A/{X}\n  200 any\n"))
+	// pairs of projects with byte-identical bodies whose verdict depends on ANOTHER declaration of the project (an ENUM
+	// with other values, a TYPE with another body, a MACRO with another body): the first is accepted, the second must be
+	// judged on its own declarations whatever was processed before it in this process
+	out = append(out, []byte("JSIGHT 0.3\nENUM @petKind\n[\"cat\", \"dog\"]\nGET /pets\n  200\n  {\n    \"kind\": \"cat\" // {enum: @petKind}\n  }\n"))
+	out = append(out, []byte("JSIGHT 0.3\nENUM @petKind\n[\"dog\", \"cow\"]\nGET /pets\n  200\n  {\n    \"kind\": \"cat\" // {enum: @petKind}\n  }\n"))
+	out = append(out, []byte("JSIGHT 0.3\nTYPE @id\n1\nGET /pets\n  200\n  {\n    \"id\": 5 // {type: \"@id\"}\n  }\n"))
+	out = append(out, []byte("JSIGHT 0.3\nTYPE @id\n\"s\"\nGET /pets\n  200\n  {\n    \"id\": 5 // {type: \"@id\"}\n  }\n"))
+	out = append(out, []byte("JSIGHT 0.3\nENUM @e\n[1, 2]\nTYPE @t\n1 // {enum: @e}\nGET /a\n  200 @t\n"))
+	out = append(out, []byte("JSIGHT 0.3\nENUM @e\n[3, 4]\nTYPE @t\n1 // {enum: @e}\nGET /a\n  200 @t\n"))
+	out = append(out, []byte("JSIGHT 0.3\nMACRO @m\n(\n  200 any\n)\nGET /a\n  PASTE @m\n"))
+	out = append(out, []byte("JSIGHT 0.3\nMACRO @m\n(\n  Query\n  {}\n)\nGET /a\n  PASTE @m\n"))
 	// one path with two different duplicated parameters / two empty ones
 	out = append(out, []byte("JSIGHT 0.3\nURL /c/{id}/{name}/f/{id}/{name}\n  GET\n    200 any\n"))
 	out = append(out, []byte("JSIGHT 0.3\nGET /c/{a}/{b}/{c}/{a}/{b}/{c}\n  200 any\n"))
@@ -148,6 +159,24 @@ func runC03(ctx *Ctx) {
 		if ra.Verdict != rb.Verdict || ra.JSONSum != rb.JSONSum || ra.Verdict != local.Verdict() || (local.JSON != nil && ra.JSONLen != len(local.JSON)) {
 			ctx.Violate(Violation{Kind: "wrong-output", Site: "determinism", What: fmt.Sprintf("fresh processes disagree: %q / %q / in-process %q", ra.Verdict, rb.Verdict, local.Verdict()),
 				Input: projectInput(pp[i]), Signature: "nondeterministic-process"})
+		}
+	}
+	// every hand-written document alone in a process of its own, against its result in THIS process (which has processed
+	// all the others before): a result must not depend on what else the process has seen
+	for _, d := range multiDocs(ctx.Rng.Fork()) {
+		if len(d) > 4000 {
+			continue
+		}
+		p := SingleFile(d)
+		solo := RunInWorkers([]Project{p}, 2*time.Second)
+		local := RunProject(p, false)
+		ctx.Cov.Hit("document alone in a fresh process vs in this process")
+		if solo[0].Resp == nil {
+			continue
+		}
+		if solo[0].Resp.Verdict != local.Verdict() || (local.JSON != nil && solo[0].Resp.JSONLen != len(local.JSON)) {
+			ctx.Violate(Violation{Kind: "wrong-output", Site: "determinism", What: fmt.Sprintf("a document gives another result alone in a fresh process than in a process that has seen other documents: %q / in-process %q", solo[0].Resp.Verdict, local.Verdict()),
+				Input: projectInput(p), Signature: "nondeterministic-history"})
 		}
 	}
 	_ = bytes.Equal
